@@ -41,6 +41,7 @@ import AutomataVerif.Props.C06
 import AutomataVerif.Props.C13
 import AutomataVerif.Props.C14
 import AutomataVerif.Props.C17
+import AutomataVerif.Props.C18
 
 namespace AV.Props.C19
 open AV AV.GNFA AV.GnfaSpec
@@ -196,6 +197,134 @@ structure AcceptedIsUsable : Prop where
     ∀ (o : DFA.SuccOpts) (fuel : Nat) (e : Exn),
     d.successor key input o fuel ≠ .raised e ∧
     (d.predecessor key input o fuel = .raised e → e = .lib .infiniteLanguageException)
+  -- ### NFA: regular operations, quotients, products (C08); `Valid` = validate ok + dict-shaped
+  -- table.  The operands may use different state-name types; no alphabet condition exists
+  /-- `union` (`|`), `concatenate` (`+`), `intersection` (`&`), `shuffle_product`,
+  `right_quotient`, `left_quotient` return an NFA (no `KeyError` in `_load_new_transition_dict`,
+  `_eliminate_lambda`, the product loops). -/
+  nfa_binary : ∀ {σ₁ σ₂ α : Type} [DecidableEq σ₁] [DecidableEq σ₂] [DecidableEq α]
+    (A : NFA σ₁ α) (B : NFA σ₂ α), A.Valid → B.Valid →
+    (∃ R, NFA.union A B = .ok R) ∧ (∃ R, NFA.orOp A B = .ok R) ∧
+    (∃ R, NFA.concatenate A B = .ok R) ∧ (∃ R, NFA.addOp A B = .ok R) ∧
+    (∃ R, NFA.intersection A B = .ok R) ∧ (∃ R, NFA.andOp A B = .ok R) ∧
+    (∃ R, NFA.shuffleProduct A B = .ok R) ∧
+    (∃ R, NFA.rightQuotient A B = .ok R) ∧ (∃ R, NFA.leftQuotient A B = .ok R)
+  /-- `kleene_star`, `option`, `reverse` (`nat` = the embedding of the fresh int names). -/
+  nfa_unary : ∀ {σ α : Type} [DecidableEq σ] [DecidableEq α] (nat : Nat → σ),
+    Function.Injective nat → ∀ A : NFA σ α, A.Valid →
+    (∃ R, NFA.kleeneStar nat A = .ok R) ∧ (∃ R, NFA.option nat A = .ok R) ∧
+    (∃ R, NFA.reverse nat A = .ok R)
+  /-- Results fed into further operations: every finite expression tree over the nine operations
+  with Python's mixed names (`PyName`), valid leaves: the evaluation returns. -/
+  nfa_expr : ∀ {α : Type} [DecidableEq α] (e : NFA.OpExpr α), C08.LeavesValid e →
+    ∃ R, e.eval = .ok R
+  /-- `_eliminate_lambda()` (the helper the quotients and `eliminate_lambda` run; it indexes
+  `lambda_closures[…]`): returns. -/
+  nfa_eliminate_lambda_core : ∀ {σ α : Type} [DecidableEq σ] [DecidableEq α] (A : NFA σ α),
+    A.Valid → ∃ r, NFAElim.core A = .ok r
+  -- ### GNFA (C12)
+  /-- `GNFA.from_dfa(d)` returns and `to_regex()` of the result returns, for every tie-break
+  order of `_find_min_connected_node`.  EXCLUSION (open finding F34
+  `C12:alphabet-has-reserved-regex-character`): the alphabet consists of literal characters
+  (`IsLit`: not reserved in the regex syntax, not white space) — otherwise the GNFA constructor
+  refuses some of the labels `from_dfa` writes (`InvalidRegexError` / `LexerError`). -/
+  gnfa_from_dfa_to_regex : ∀ {σ : Type} [DecidableEq σ] (natName : Nat → σ),
+    Function.Injective natName → ∀ d : DFA σ Char, d.validate = .ok () →
+    (∀ kv ∈ d.trans, (akeys kv.2).Nodup) → (∀ a ∈ d.syms, IsLit a) →
+    ∃ g, fromDFA simpleRxValid natName d = .ok g ∧
+      ∀ ord : Nat → List σ → List σ, (∀ k l x, x ∈ ord k l ↔ x ∈ l) → ∃ o, toRegex g ord = .ok o
+  /-- `GNFA.from_nfa(n)` + `to_regex()` (same exclusion; rows and target sets duplicate-free). -/
+  gnfa_from_nfa_to_regex : ∀ {σ : Type} [DecidableEq σ] (natName : Nat → σ),
+    Function.Injective natName → ∀ n : NFA σ Char, n.validate = .ok () →
+    (∀ kv ∈ n.trans, (akeys kv.2).Nodup) → (∀ kv ∈ n.trans, ∀ e ∈ kv.2, e.2.Nodup) →
+    (∀ a ∈ n.syms, IsLit a) →
+    ∃ g, fromNFA simpleRxValid natName n = .ok g ∧
+      ∀ ord : Nat → List σ → List σ, (∀ k l x, x ∈ ord k l ↔ x ∈ l) → ∃ o, toRegex g ord = .ok o
+  /-- `g.to_regex()` on a hand-written GNFA of the documented shape (what `GNFA.validate`
+  checks since fix 084dfed: a row for every non-final state, an entry for every non-initial
+  state) whose labels are well-formed regexes: no `KeyError` (F20, fixed).  `Shape` / `Denotes`
+  are hypotheses here: no bridge from `validateStr = ok` to them is proved. -/
+  gnfa_to_regex : ∀ {σ : Type} [DecidableEq σ] (g : GNFA σ Str),
+    Shape (dedup g.states) g.init g.final g.trans →
+    ∀ Lb : σ → σ → Language Char, Denotes Lab g.trans Lb →
+    ∀ ord : Nat → List σ → List σ, (∀ k l x, x ∈ ord k l ↔ x ∈ l) → ∃ o, toRegex g ord = .ok o
+  -- ### PDA (C02): these hold for EVERY table, valid or not (no validity hypothesis needed)
+  /-- NPDA `read_input_stepwise` (any loop budget): ends normally, with `RejectionException`, or
+  is still running; `read_input` raises at most that; `accepts_input` raises nothing. -/
+  npda_read : ∀ {σ α γ : Type} [DecidableEq σ] [DecidableEq α] [DecidableEq γ]
+    (M : PDA.NPDA σ α γ) (fuel : Nat) (w : List α),
+    (∀ e, (M.readStepwise fuel w).2 = .raised e → e = .lib .rejectionException) ∧
+    (∀ e, PDA.readInput (M.readStepwise fuel w) = some (.error e) → e = .lib .rejectionException) ∧
+    (∀ e, PDA.acceptsInput (M.readStepwise fuel w) ≠ some (.error e))
+  /-- DPDA the same, whichever of two applicable transitions `set.pop()` takes (`pick`); the
+  `IndexError` in the message formatting of `_get_next_configuration` is unreachable. -/
+  dpda_read : ∀ {σ α γ : Type} [DecidableEq σ] [DecidableEq α] [DecidableEq γ]
+    (M : PDA.DPDA σ α γ) (pick : PDA.Config σ α γ → Bool) (fuel : Nat) (w : List α),
+    (∀ e, (M.readStepwise pick fuel w).2 = .raised e → e = .lib .rejectionException) ∧
+    (∀ e, PDA.readInput (M.readStepwise pick fuel w) = some (.error e) →
+      e = .lib .rejectionException) ∧
+    (∀ e, PDA.acceptsInput (M.readStepwise pick fuel w) ≠ some (.error e))
+  -- ### Turing machines (C03)
+  /-- DTM `read_input_stepwise` observed through `n` calls of `next()`: raises at most
+  `RejectionException`; `accepts_input` within that budget answers (for every table). -/
+  dtm_read : ∀ {σ Γ : Type} [DecidableEq σ] [DecidableEq Γ] (M : TM.DTM σ Γ) (w : List Γ) (n : Nat),
+    (∀ e, (M.readStepwise w n).2 = .raised e → e = .lib .rejectionException) ∧
+    ∃ v, M.verdict w n = .ok v
+  ntm_read : ∀ {σ Γ : Type} [DecidableEq σ] [DecidableEq Γ] (M : TM.NTM σ Γ) (w : List Γ) (n : Nat),
+    (∀ e, (M.readStepwise w n).2 = .raised e → e = .lib .rejectionException) ∧
+    ∃ v, M.verdict w n = .ok v
+  /-- MNTM (valid: empty transition lists allowed since fix 5a3675d, no `IndexError`). -/
+  mntm_read : ∀ {σ Γ : Type} [DecidableEq σ] [DecidableEq Γ] (M : TM.MNTM σ Γ),
+    M.validate = .ok () → ∀ (w : List Γ) (n : Nat),
+    (∀ e, (M.readStepwise w n).2 = .raised e → e = .lib .rejectionException) ∧
+    ∃ v, M.verdict w n = .ok v
+  /-- `MNTM.read_input_as_ntm` (C17).  EXCLUSION (open finding F35 / F35b
+  `C17:mark-symbol-in-alphabet-or-input`): the head mark `hd` (`'^'`) and the separator `sep`
+  (`'_'`) are neither tape symbols (`SimDomain.alphabet`) nor in the input (`Clean`) — otherwise
+  `MalformedExtendedTapeError` (`C17_mark_in_alphabet_fails`, `C17_mark_in_input_fails`).
+  `SimDomain` also asks for `1 ≤ n_tapes`, which `validate` does not check. -/
+  mntm_read_as_ntm : ∀ {σ Γ : Type} [DecidableEq σ] [DecidableEq Γ] (M : TM.MNTM σ Γ) (hd sep : Γ),
+    TM.SimDomain M hd sep → ∀ w : List Γ, TM.Clean hd sep w → ∀ n : Nat,
+    (∀ e, (TM.simStepwise M hd sep w n).2 = .raised e → e = .lib .rejectionException) ∧
+    ∃ v, TM.simVerdict M hd sep w n = .ok v
+  -- ### every class: copy / pickle (C18)
+  /-- `copy()` and a pickle round trip of a constructed automaton of any of the 8 classes
+  return (under either setting of `allow_mutable_automata`). -/
+  copy_pickle : ∀ (allowMutable : Bool) (cls : String), cls ∈ VA.Obj.classes →
+    ∀ (kwargs : List (String × VA.PyVal)) (a : VA.Inst),
+    VA.Obj.classInit allowMutable cls kwargs = .ok a →
+    (∃ b, VA.Obj.copy allowMutable a = .ok b) ∧ ∃ b, VA.Obj.pickleRoundTrip allowMutable a = .ok b
+
+/-! ## glue -/
+
+/-- A reader whose `accepts_input` never raises ends with `RejectionException` at most, and so
+does `read_input`. -/
+theorem pda_reads {β : Type} (r : List β × PDA.Outcome)
+    (h : ∀ e, PDA.acceptsInput r ≠ some (.error e)) :
+    (∀ e, r.2 = .raised e → e = .lib .rejectionException) ∧
+    (∀ e, PDA.readInput r = some (.error e) → e = .lib .rejectionException) ∧
+    (∀ e, PDA.acceptsInput r ≠ some (.error e)) := by
+  have key : ∀ e, PDA.readInput r = some (.error e) → e = .lib .rejectionException := by
+    intro e he
+    apply Classical.byContradiction
+    intro hne
+    apply h e
+    unfold PDA.acceptsInput
+    rw [he]
+    cases e with
+    | py x => rfl
+    | lib x => cases x <;> first | rfl | exact absurd rfl hne
+  refine ⟨fun e he => key e ?_, key, h⟩
+  unfold PDA.readInput
+  rw [he]
+
+/-- `accepts_input` on top of a generator that raises at most `RejectionException` answers. -/
+theorem verdictOf_ok {g : TM.GenEnd} (h : ∀ e, g = .raised e → e = .lib .rejectionException) :
+    ∃ v, TM.verdictOf g = .ok v := by
+  cases g with
+  | returned => exact ⟨_, rfl⟩
+  | raised e => rw [h e rfl]; exact ⟨_, rfl⟩
+  | running => exact ⟨_, rfl⟩
 
 /-! ## the proof -/
 
@@ -346,5 +475,62 @@ theorem C19_accepted_is_usable_partial : AcceptedIsUsable where
         exact this.elim
       · rw [hinf hi] at he
         cases he; rfl
+  nfa_binary := fun A B hA hB =>
+    ⟨let ⟨R, h, _⟩ := C08.C08_union A B hA hB; ⟨R, h⟩,
+     let ⟨R, h, _⟩ := C08.C08_or A B hA hB; ⟨R, h⟩,
+     let ⟨R, h, _⟩ := C08.C08_concatenate A B hA hB; ⟨R, h⟩,
+     let ⟨R, h, _⟩ := C08.C08_add A B hA hB; ⟨R, h⟩,
+     let ⟨R, h, _⟩ := C08.C08_intersection A B hA hB; ⟨R, h⟩,
+     let ⟨R, h, _⟩ := C08.C08_and A B hA hB; ⟨R, h⟩,
+     let ⟨R, h, _⟩ := C08.C08_shuffle_product A B hA hB; ⟨R, h⟩,
+     let ⟨R, h, _⟩ := C08.C08_right_quotient A B hA hB; ⟨R, h⟩,
+     let ⟨R, h, _⟩ := C08.C08_left_quotient A B hA hB; ⟨R, h⟩⟩
+  nfa_unary := fun nat hnat A hA =>
+    ⟨let ⟨R, h, _⟩ := C08.C08_kleene_star nat hnat A hA; ⟨R, h⟩,
+     let ⟨R, h, _⟩ := C08.C08_option nat hnat A hA; ⟨R, h⟩,
+     let ⟨R, h, _⟩ := C08.C08_reverse nat hnat A hA; ⟨R, h⟩⟩
+  nfa_expr := fun e h => let ⟨R, hR, _⟩ := C08.C08_expr e h; ⟨R, hR⟩
+  nfa_eliminate_lambda_core := fun A hA =>
+    let ⟨ra, ta, fa, h, _⟩ := NFAElim.core_spec A hA
+    ⟨(ra, ta, fa), h⟩
+  gnfa_from_dfa_to_regex := fun natName hinj d hv hkeys hlit =>
+    let ⟨g, hg⟩ := C12.C12_from_dfa_total natName hinj d hv hlit
+    ⟨g, hg, fun ord hord =>
+      let ⟨o, ho, _⟩ := C12.C12_to_regex_dfa simpleRxValid natName hinj d hv hkeys hlit g hg ord hord
+      ⟨o, ho⟩⟩
+  gnfa_from_nfa_to_regex := fun natName hinj n hv hkeys htgts hlit =>
+    let ⟨g, hg⟩ := C12.C12_from_nfa_total natName hinj n hv hkeys htgts hlit
+    ⟨g, hg, fun ord hord =>
+      let ⟨o, ho, _⟩ :=
+        C12.C12_to_regex_nfa simpleRxValid natName hinj n hv hkeys htgts hlit g hg ord hord
+      ⟨o, ho⟩⟩
+  gnfa_to_regex := fun g hS _ hD ord hord =>
+    let ⟨o, ho, _⟩ := C12.C12_to_regex_strings g hS hD ord hord
+    ⟨o, ho⟩
+  npda_read := fun M fuel w =>
+    pda_reads _ (C02.C02_npda_accepts_input M fuel w).2.2.2.1
+  dpda_read := fun M pick fuel w =>
+    pda_reads _ (C02.C02_dpda_accepts_input M pick fuel w).2.2.2.1
+  dtm_read := fun M w n =>
+    have h : ∀ e, (M.readStepwise w n).2 = .raised e → e = .lib .rejectionException :=
+      fun e he => ((C03.C03_dtm_reject_iff M w n e).mp he).1
+    ⟨h, verdictOf_ok h⟩
+  ntm_read := fun M w n =>
+    have h : ∀ e, (M.readStepwise w n).2 = .raised e → e = .lib .rejectionException :=
+      fun e he => ((C03.C03_ntm_reject_iff M w n e).mp he).1
+    ⟨h, verdictOf_ok h⟩
+  mntm_read := fun M hv w n =>
+    have h : ∀ e, (M.readStepwise w n).2 = .raised e → e = .lib .rejectionException :=
+      fun e he => ((C03.C03_mntm_rejects_iff M hv w e).mp ⟨n, he⟩).1
+    ⟨h, verdictOf_ok h⟩
+  mntm_read_as_ntm := fun M hd sep dom w hw n =>
+    have h : ∀ e, (TM.simStepwise M hd sep w n).2 = .raised e → e = .lib .rejectionException := by
+      intro e he
+      rcases C17.C17_only_rejection M hd sep dom w hw n with h | h | h <;> rw [h] at he <;> cases he
+      rfl
+    ⟨h, verdictOf_ok h⟩
+  copy_pickle := fun am cls hcls kwargs a h =>
+    ⟨let ⟨b, hb, _⟩ := C18.C18_copy_roundtrip am cls hcls kwargs a h; ⟨b, hb⟩,
+     let ⟨b, hb, _⟩ := C18.C18_pickle_roundtrip am cls hcls kwargs a h; ⟨b, hb⟩⟩
 
 end AV.Props.C19
